@@ -44,7 +44,7 @@ Ltac qprops :=
   | H : Qeqb _ _ = true |- _ => apply Qeqb_eq in H
   | H : Qeqb _ _ = false |- _ => apply Qeqb_neq in H
   end.
-Ltac vsimp := cbn [vadd vsub vmul vdiv vneg vabs vlt vle veq vne vnot vand vor truth vidx vidx2 vcol vdot vscale nth map V2
+Ltac vsimp := cbn [vadd vsub vsub_b vmul vdiv vneg vabs vlt vle veq vne vnot vand vor truth vidx vidx2 vcol vdot vscale nth map V2
                    negb andb orb Bool.eqb].
 
 (* ---------------- in_interval ---------------- *)
@@ -261,7 +261,7 @@ Proof.
 Qed.
 
 (* ---------------- parallel_lines_parameters ---------------- *)
-Ltac vsimp_in H := cbn [vadd vsub vmul vdiv vneg vabs vlt vle veq vne vnot vand vor truth vidx vidx2 vcol vdot vscale nth map V2
+Ltac vsimp_in H := cbn [vadd vsub vsub_b vmul vdiv vneg vabs vlt vle veq vne vnot vand vor truth vidx vidx2 vcol vdot vscale nth map V2
                         negb andb orb Bool.eqb] in H.
 Ltac break_ifs H :=
   repeat (match type of H with context [if ?c then _ else _] => let E := fresh "E" in destruct c eqn:E; vsimp_in H end).
